@@ -1,16 +1,63 @@
 (* Model/C01Run.v - case type and checker evaluated on harness-generated cases (C01) *)
-From ReqV Require Export Lib.Bytes Model.Url.
+From ReqV Require Export Lib.Bytes Model.Url Model.H1Req.
 
 Inductive c01_case :=
 (* url.PathEscape / url.QueryEscape of v, and url.PathUnescape / url.QueryUnescape of v *)
 | EscCase (v pe qe : bytes) (pu qu : option bytes)
 (* parseRequestURL + the transport's scheme/host test: None = the call failed *)
 | UrlCase (base raw : bytes) (rp cp : list param) (cq rq : values)
-          (obs : option (bytes * (bytes * bytes))).
+          (obs : option (bytes * (bytes * bytes)))
+(* a whole request through the real client, observed at a recording origin *)
+| ReqCase (proto : nat) (a : areq) (obs : req_obs)
+with req_obs :=
+| OErr                                                      (* the call failed *)
+| OH1 (head : bytes) (chunked body_same no_extra : bool)    (* raw head; body compared by the harness *)
+| OH23 (fields : list line) (body_same : bool).
 
 Definition obs3_eqb (a : bytes * (bytes * bytes)) (b : bytes * (bytes * bytes)) : bool :=
   bytes_eqb (fst a) (fst b) && bytes_eqb (fst (snd a)) (fst (snd b)) &&
   bytes_eqb (snd (snd a)) (snd (snd b)).
+
+Definition sorted_lines (ls : list line) : list line := sort_le (line_leb true) ls.
+
+(* the h1 reader of the theorems, run on the real head followed by the body *)
+Definition observe_tie (a : areq) (q : creq) (head : bytes) : bool :=
+  if (600 <? length (a_body a))%nat then true else
+  let body := match eff_kind a with BNone => [] | _ => a_body a end in
+  match observe_h1 (head ++ body) with
+  | Some (v, rest) => bytes_eqb (v_method v) (c_method q) && bytes_eqb (v_target v) (c_path q) &&
+                      bytes_eqb (v_body v) body && bytes_eqb rest []
+  | None => false
+  end.
+
+Definition h23_lines (proto : nat) (q : creq) : list line :=
+  match proto with 2 => h2_lines q | _ => h3_lines q end.
+
+Definition req_check (proto : nat) (a : areq) (obs : req_obs) : bool :=
+  match to_creq a with
+  | Unsupported => false
+  | Rejected => match obs with OErr => true | _ => false end
+  | Sent q =>
+      let body := match eff_kind a with BNone => [] | _ => a_body a end in
+      match proto with
+      | 1 =>
+          match h1_head q body, obs with
+          | Rejected, OErr => true
+          | Sent hd, OH1 head chunked same noextra =>
+              bytes_eqb hd head && Bool.eqb (h1_chunked q body) chunked && same && noextra &&
+              (if chunked then true else observe_tie a q head)
+          | _, _ => false
+          end
+      | _ =>
+          if negb (is_ascii (c_host q)) then false
+          else if negb (valid_host_header (c_host q)) then match obs with OErr => true | _ => false end
+          else match obs with
+               | OH23 fields same =>
+                   list_eqb line_eqb (sorted_lines (h23_lines proto q)) (sorted_lines fields) && same
+               | _ => false
+               end
+      end
+  end.
 
 Definition c01_check (c : c01_case) : bool :=
   match c with
@@ -23,4 +70,5 @@ Definition c01_check (c : c01_case) : bool :=
       | BErr, None => true
       | _, _ => false
       end
+  | ReqCase proto a obs => req_check proto a obs
   end.
